@@ -46,6 +46,7 @@ def case_strategy(draw):
     elif kind == "prop":
         c["fn"] = draw(st.sampled_from(["prop", "p", "proportion"]))
         c["trials"] = draw(st.sampled_from(["n", "n", "40", "trials=n", "trials=40", "n + 1"]))
+        c["spelling"] = draw(st.sampled_from(["positional", "positional", "successes=", "trials_first"]))  # both arguments by keyword, in either order
         c["float_counts"] = draw(st.integers(0, 3)) == 0  # integer-valued float columns are valid counts
     elif kind == "prop_invalid":
         c["what"] = draw(st.sampled_from(["float_successes", "successes_gt_trials", "successes_gt_trials_one_row", "float_successes_one_row", "float_trials", "float_constant", "successes_not_a_name", "missing_success_kept"]))
@@ -187,7 +188,10 @@ def judge(ctx, case):
 
     if kind == "prop":
         formula = f"{case['fn']}(s, {case['trials']}) ~ x"
-        done(formula, extra=["trials:" + case["trials"]])
+        if case.get("spelling", "positional") != "positional":
+            t_ = case["trials"].replace("trials=", "")
+            formula = (f"{case['fn']}(successes=s, trials={t_}) ~ x" if case["spelling"] == "successes=" else f"{case['fn']}(trials={t_}, successes=s) ~ x")
+        done(formula, extra=["trials:" + case["trials"], "spelling:" + case.get("spelling", "positional")])
         full = dict(case, formula=formula)
         texpr = case["trials"].replace("trials=", "")
         if case.get("float_counts"):
